@@ -4,6 +4,8 @@ CONSTANTS
   NegMag = {2}
   Gaps = {0, 2}
   MaxLen = 5
-INVARIANTS TypeOK RunIsRef ReadIsCurrent PeakToTrough Recovery OnePerPeak NoneIffMonotone MaxIsLargest ClassicMDD
-PROPERTIES ReadingIsPure
+  MaxResets = 0
+INVARIANTS TypeOK RunIsRef ReadIsCurrent ResetIsInit PeakToTrough Recovery OnePerPeak NoneIffMonotone MaxIsLargest ClassicMDD
+PROPERTIES ReadingIsPure PersistIsStutter
 CHECK_DEADLOCK FALSE
+VIEW View
